@@ -44,7 +44,7 @@ def gen_case(rng, tier, allow=None):
     if allow is None:
         r = rng.random()
         allow = "c" if r < 0.12 else "x" if r < 0.30 else ""
-    n = rng.choice([20, 40, 60, 80, 120, 200]) if tier == "quick" else rng.choice([20, 60, 100, 200, 300])
+    n = rng.choice([20, 40, 60, 80, 120, 160]) if tier == "quick" else rng.choice([20, 60, 100, 200, 300])
     smallq = rng.random() < 0.8
     steps = []
     live, adding, dropping = [], [], []
